@@ -375,15 +375,16 @@ def BUF2_SCRIPT(K=0, horizon=7, ops=None):
     return s
 
 
-def LOOP(K=0, horizon=6, delay=1, cap=4, ops=None):
+def LOOP(K=0, horizon=6, delay=1, cap=4, ops=None, pattern=None):
     '''A multi-pass store: parts leave the buffer through a gate that sends them straight back into the SAME buffer
     until they have been through it twice (zero-time loop: the part re-enters inside the buffer's own hand-over).'''
     b = buf('B', ['S', 'Gagain'], cap, delay)
     b['up_init'] = ['S']
-    devs = [src('S', 1, budget=3), b, gate('Gagain', ['B'], 'again'), gate('Gdone', ['B'], 'done'), sink('K', ['Gdone'], 0.5)]
+    s0 = src('S', 1, budget=3) if pattern is None else src('S', 1, budget=3, pattern=list(pattern))   # (batches go round too)
+    devs = [s0, b, gate('Gagain', ['B'], 'again'), gate('Gdone', ['B'], 'done'), sink('K', ['Gdone'], 0.5)]
     if ops is None:
         ops = [('block', 'K', True), ('block', 'K', False)]
-    return spec(f'LOOP[d{delay},cap{cap},K{K}]', devs, horizon, ops, K)
+    return spec(f'LOOP[d{delay},cap{cap}{",batches" if pattern else ""},K{K}]', devs, horizon, ops, K)
 
 
 def REWIRE2(K=0, horizon=6, ops=None):
@@ -401,6 +402,26 @@ def FANOUT(K=0, horizon=6, ops=None):
     if ops is None:
         ops = [('fail', 'M1', 0), ('restore', 'M1'), ('block', 'M2', True), ('block', 'M2', False)]
     return spec(f'FANOUT[K{K}]', devs, horizon, ops, K)
+
+
+def FANSINK(K=0, horizon=7, ops=None):
+    """A source feeding three parallel sinks that take no time: each sink is idle again within the very event in which it
+    received its part, so after the first round the idle-longest rule has to go by stamps set inside the reception."""
+    devs = [src('S', 1), sink('K1', ['S'], 0), sink('K2', ['S'], 0), sink('K3', ['S'], 0)]
+    if ops is None:
+        ops = [('block', 'K1', True), ('block', 'K1', False), ('block', 'K2', True), ('block', 'K2', False)]
+    return spec(f'FANSINK[K{K}]', devs, horizon, ops, K)
+
+
+def REENT_SENS(K=0, horizon=9, n=1, ops=None):
+    """The re-entrant line (one machine used at two positions of the route) with an output-part sensor on the shared
+    machine: the same part is finished twice by the sensed processor, possibly twice in a row."""
+    devs = [proc('M1', [], 1, dq=-0.25), group('G', ['M1']), src('S', 4, qualities=[1, 0.5]),
+            path('A', 'G', ['S']), buf('Bm', ['A'], 2), path('Bp', 'G', ['Bm']), sink('K', ['Bp']),
+            osensor('O', 'M1', ['quality', 'id'], n, None, 1)]
+    if ops is None:
+        ops = [('fail', 'M1', 0), ('restore', 'M1')]
+    return spec(f'REENTSENS[n{n},K{K}]', devs, horizon, ops, K)
 
 
 def FAN3(K=0, horizon=8, ops=None):
